@@ -77,5 +77,26 @@ pub fn run() -> i32 {
         let ser = RepDefBuilder::serialize(vec![b]);
         println!("L all empty via builder: rep {:?} def {:?} meaning {:?}", ser.repetition_levels, ser.definition_levels, ser.def_meaning);
     }
+    // Utf8 column: 129 empty strings followed by 128 strings of 250 bytes, 4 times (all values < 256 bytes => mini-block)
+    {
+        let mut v: Vec<String> = vec![];
+        for _ in 0..4 {
+            for _ in 0..129 { v.push(String::new()); }
+            for i in 0..128 { v.push(format!("{:0>250}", i)); }
+        }
+        let arr = StringArray::from(v.clone());
+        let schema = Arc::new(arrow_schema::Schema::new(vec![arrow_schema::Field::new("col", arrow_schema::DataType::Utf8, true).with_metadata([("lance-encoding:compression".to_string(), "none".to_string())].into_iter().collect())]));
+        let batch = RecordBatch::try_new(schema.clone(), vec![Arc::new(arr)]).unwrap();
+        let out = crate::quiet::catch(|| rt.block_on(async {
+            let f = crate::fileio::write_file(&[batch], schema, lance_encoding::version::LanceFileVersion::V2_1, None, "probe4").await?;
+            let r = crate::fileio::open(&f).await?;
+            crate::fileio::read_all(&r, 4096).await
+        }));
+        match out {
+            Ok(Ok(b)) => println!("skewed strings: read back {} rows", b.iter().map(|x| x.num_rows()).sum::<usize>()),
+            Ok(Err(e)) => println!("skewed strings: error {e}"),
+            Err((m, l)) => println!("skewed strings: PANIC {m} at {l}; first repo panic: {:?}", crate::quiet::take_repo_panic()),
+        }
+    }
     0
 }
